@@ -44,7 +44,7 @@ def split_host_port(
 
 def join_host_port(host: str, port: int) -> str:
     if ":" in host:
-        return f"[{host}]:port"
+        return f"[{host}]:{port}"
     return f"{host}:{port}"
 
 
